@@ -569,7 +569,7 @@ def _c03(dump_path, fname, tier):
                     continue
                 qn = f"{fname}:case{case.idx}:path{case.results.index(a)}x{case.results.index(b)}"
                 vb = noninput_vars(case, b.path)
-                ren = dict((str(v), (v, z3.Int(str(v) + "'"))) for v in vb)
+                ren = dict((str(v), (v, z3.Int(str(v) + "_p"))) for v in vb)
 
                 conj_b = z3.And(*b.path.exprs()) if b.path.cons else z3.BoolVal(True)
 
@@ -685,7 +685,7 @@ def _c05(dump_path, fname, tier, variant_dumps):
                         continue
                     ub = user_outcome(vfa, b)
                     vb = noninput_vars(vcase, b.path)
-                    pairs = [(v, z3.Int(str(v) + "'")) for v in vb]
+                    pairs = [(v, z3.Int(str(v) + "_p")) for v in vb]
                     sub = (lambda e: z3.substitute(e, *pairs)) if pairs else (lambda e: e)
                     conj_b = z3.And(*b.path.exprs()) if b.path.cons else z3.BoolVal(True)
                     if ua is None or ub is None:
